@@ -1,1 +1,80 @@
 // Kani contract harnesses for /repo/arrow-array/src/builder/primitive_builder.rs (child module: sees private items via super::)
+use super::*;
+#[path = "/verif/kani/support/spec.rs"]
+mod spec;
+use spec::*;
+use crate::types::Int32Type;
+use crate::Array;
+
+/// the fixed append schedule shared by the two units below; returns the model (Vec<Option<i32>> as arrays)
+fn schedule(b: &mut PrimitiveBuilder<Int32Type>, v: &[i32; 4], last_some: bool) -> [Option<i32>; 5] {
+    b.append_value(v[0]);
+    b.append_null();
+    b.append_slice(&v[1..3]);
+    b.append_option(if last_some { Some(v[3]) } else { None });
+    [Some(v[0]), None, Some(v[1]), Some(v[2]), if last_some { Some(v[3]) } else { None }]
+}
+
+// Contract (C01): PrimitiveBuilder::<Int32Type> after the schedule append_value(a); append_null();
+// append_slice([b, c]); append_option(o) (a, b, c, o symbolic) holds exactly the model
+// [Some(a), None, Some(b), Some(c), o]: len() == 5, values_slice()[i] == the value for valid slots,
+// validity bit i set <=> slot i is Some (validity_slice() is present because a null was appended).
+// This is the builder *state* contract; `finish` is the separate unit pbuilder_finish_model.
+// @unit name=pbuilder_state_model props=C01 kind=bounded bound=schedule_of_4_appends_5_slots fns=PrimitiveBuilder::append_value,PrimitiveBuilder::append_null,PrimitiveBuilder::append_slice,PrimitiveBuilder::append_option,PrimitiveBuilder::values_slice,PrimitiveBuilder::validity_slice
+#[kani::proof]
+#[kani::unwind(10)]
+#[kani::stub(alloc::fmt::format, stub_format)]
+fn pbuilder_state_model() {
+    let v: [i32; 4] = kani::any();
+    let last_some: bool = kani::any();
+    let mut b = PrimitiveBuilder::<Int32Type>::with_capacity(8);
+    let m = schedule(&mut b, &v, last_some);
+    assert!(b.len() == 5);
+    let vals = b.values_slice();
+    assert!(vals.len() == 5);
+    let validity = b.validity_slice();
+    assert!(validity.is_some());
+    let bm = validity.unwrap();
+    let mut i = 0;
+    while i < 5 {
+        match m[i] {
+            Some(x) => { assert!(vals[i] == x); assert!(bit(bm, i)); }
+            None => assert!(!bit(bm, i)),
+        }
+        i += 1;
+    }
+    kani::cover!(last_some);
+    kani::cover!(!last_some);
+    std::mem::forget(b);
+}
+
+// Contract (C01, stretch): finish() after the same schedule returns a well-formed Int32 array equal to
+// the model (len 5, exact null count, value(i) on valid slots, is_null(i)), and leaves the builder empty.
+// Measured in the design phase: 6-minute timeout (finish goes through ArrayData::builder ..
+// build_unchecked and PrimitiveArray::from(ArrayData), whose temporaries drop a DataType inside the
+// callee). Kept as a thorough-tier attempt only if it fits 900 s.
+// @unit name=pbuilder_finish_model props=C01 kind=bounded bound=schedule_of_4_appends_5_slots fns=PrimitiveBuilder::finish tier=thorough timeout=900 mem=10 note=not_confirmed_at_checkpoint
+#[kani::proof]
+#[kani::unwind(10)]
+#[kani::stub(alloc::fmt::format, stub_format)]
+fn pbuilder_finish_model() {
+    let v: [i32; 4] = kani::any();
+    let last_some: bool = kani::any();
+    let mut b = PrimitiveBuilder::<Int32Type>::with_capacity(8);
+    let m = schedule(&mut b, &v, last_some);
+    let a = b.finish();
+    assert!(a.len() == 5);
+    assert!(a.null_count() == if last_some { 1 } else { 2 });
+    let mut i = 0;
+    while i < 5 {
+        match m[i] {
+            Some(x) => { assert!(a.is_valid(i)); assert!(a.value(i) == x); }
+            None => assert!(a.is_null(i)),
+        }
+        i += 1;
+    }
+    assert!(b.len() == 0);
+    kani::cover!(last_some);
+    std::mem::forget(a);
+    std::mem::forget(b);
+}
